@@ -142,9 +142,9 @@ def progress(sched, log):
         res["k"] = max(0, max(cps) - p0)
     if missing:
         res["problems"].append(("progress", "after the synchrony point (decision %s, %s scheduler, Δ=%d ms, Byzantine %s) honest node(s) %s never obtained block(s) %s "
-                                "within the budget of the synchronous phase (%s decisions; largest period reached in round %d: %d, at the synchrony point: %d)"
+                                "within the budget of the synchronous phase (%s decisions, %s timer firings of %s allowed = honest nodes × 9 periods × 34 timers per period; largest period reached in round %d: %d, at the synchrony point: %d)"
                                 % (f["at"], res["mode"], res["delta"], "active" if res["byz"] else "silent", sorted({m[0] for m in missing}),
-                                   sorted({m[1] for m in missing}), (end or {}).get("decisions", "?"), target, max_period, p0)))
+                                   sorted({m[1] for m in missing}), (end or {}).get("decisions", "?"), (end or {}).get("timers", "?"), (end or {}).get("timerbudget", "?"), target, max_period, p0)))
     elif res["k"] is not None and res["k"] > K_BOUND + res["byz_periods"] and res["mode"] != "nd":
         res["problems"].append(("progress", "round %d was committed with a certificate of period %d; the honest nodes were in period ≤ %d at the synchrony point: %d periods > K = %d (+%d Byzantine-led)"
                                 % (target, max(cps), p0, res["k"], K_BOUND, res["byz_periods"])))
